@@ -156,6 +156,17 @@ func (c *FnCtx) oblige(st *State, kind string, site ast.Node, sub, detail string
 	}
 	// an equivalence (possibly under universal quantifiers) is proved as two implications: the two directions need
 	// different instantiations and solvers are far more robust on them separately
+	// P => (A and B)  and  forall x :: (A and B)  are split like conjunctions
+	if goal.Op == "=>" && len(goal.Args) == 2 && goal.Args[1].Op == "and" && len(goal.Args[1].Args) > 1 {
+		save := len(st.pc)
+		for _, g := range goal.Args[1].Args {
+			gi := mkImplies(goal.Args[0], g)
+			c.oblige(st, kind, site, sub, detail, gi)
+			st.pc = append(st.pc, gi)
+		}
+		st.pc = st.pc[:save]
+		return
+	}
 	// a conjunction is proved conjunct by conjunct (each may use the ones before it)
 	if goal.Op == "and" && len(goal.Args) > 1 {
 		save := len(st.pc)
